@@ -228,7 +228,7 @@ theorem C10_trie_wf_reachable (evs : List Ev) : Mqtt.Proofs.Topics.WF (run {} ev
 /-- After an accepted CONNECT answered with SessionPresent=1, every entry
 `(filter, qos)` of the kept session's topic list that the store accepts (QoS ≤ 2,
 the filter does not begin with '$' and `nextTopicLevel` parses it:
-`entryLevels f = levels f` unless `checkSys f`, and `([], false)` then -
+`entryLevels f = levels f` unless `checkTopic f` (empty, or beginning with '$'), and `([], false)` then -
 `C10_entryLevels`), and whose level path is not shared with
 another entry of the list, is held in the trie for the new connection `c` at its
 granted QoS (`abs`: the entries of the trie).  Consequently (C06_smatch_char)
@@ -264,8 +264,8 @@ theorem C10_resume_trie (b : B) (hwf : Mqtt.Proofs.Topics.WF b.topics.sroot) (c 
 
 /-- `entryLevels`: what the entry points of the topic store walk of a filter -/
 theorem C10_entryLevels (f : Bytes) :
-    (Mqtt.Model.Topics.checkSys f = false → Mqtt.Proofs.Topics.entryLevels f = Mqtt.Model.Topics.levels f) ∧
-    (Mqtt.Model.Topics.checkSys f = true → Mqtt.Proofs.Topics.entryLevels f = ([], false)) :=
+    (Mqtt.Model.Topics.checkTopic f = false → Mqtt.Proofs.Topics.entryLevels f = Mqtt.Model.Topics.levels f) ∧
+    (Mqtt.Model.Topics.checkTopic f = true → Mqtt.Proofs.Topics.entryLevels f = ([], false)) :=
   ⟨Mqtt.Proofs.Topics.entryLevels_of_not_sys f, Mqtt.Proofs.Topics.entryLevels_of_sys f⟩
 
 /-- the granted QoS is the requested one for QoS ≤ 2 (`Generated.maxQosAllowed` = 2) -/
